@@ -69,3 +69,6 @@ pub mod s1 {
 pub mod dl {
     include!("dl_drops.rs");
 }
+pub mod t1 {
+    include!("t1_twins.rs");
+}
